@@ -161,6 +161,18 @@ def _attempt(rep, sess, case, B, mode, seed, tier):
     e.check_reachable()
     results = []
 
+    if mode == "P":
+        gen_out0, fresh0 = e.outs
+        allowed0 = {v.get_id() for v in z3_vars_of(list(data_ins))} | {v.get_id() for v in z3_vars_of(list(fresh0.values()))}
+        left0 = {x for x in leftover_symbols(gen_out0, allowed0) if not (x.startswith('oob!') or x.startswith('div0!') or 'oob!' in x)}
+        if left0:
+            # the loss evaluates forward passes other than the documented ones (network symbols survive the generalisation):
+            # nothing can be proved for all parameters; look for a concrete counterexample with seeded networks (mode C)
+            rep.extra.setdefault("generalisation", {})[site] = {"network_symbols_left_in_loss": len(left0)}
+            sess.queries.append(__import__("symcore.solver", fromlist=["Query"]).Query(f"{site}:loss-uses-only-the-documented-forward-passes", "unknown", 0.0, None, 0, "obligation"))
+            sess.queries[-1]._smt2 = None
+            return [(site, f"{len(left0)} network symbols survive generalisation: the loss does not use exactly the documented forward passes")]
+
     # (a) value and auxiliary outputs equal the documented formula (one obligation per output)
     names = case.out_names()
 
